@@ -1,8 +1,9 @@
 #!/bin/sh
 # tools/regress_seeds.sh [pattern] -> seeded/REGRESSION.txt
-# Every stored seeded change again, against the machinery as it is now (scratch copies only):
-# patch applies to /repo HEAD, repository tests pass, the check of its property reports it.
-# Uses the early-stop mode of the mutation tools (a worker stops at its first violation).
+# Every stored seeded change again, against the machinery AND the repository as they are now (scratch copies
+# only): the patch applies to /repo HEAD, the repository tests pass, its demo still fails with the change
+# (a change whose demo now passes was NEUTRALISED by a later repair of /repo), and the check of its property
+# reports it.  Uses the early-stop mode of the mutation tools (a worker stops at its first violation).
 cd /verif
 OUT=seeded/REGRESSION.txt
 : > "$OUT.tmp"
@@ -15,11 +16,17 @@ for d in seeded/*${1:-}*/; do
     echo "$n | PATCH-DOES-NOT-APPLY" | tee -a "$OUT.tmp"; rm -rf "$W"; continue
   fi
   t=$(cd "$W/repo" && /venv/bin/python -B -m pytest -q -x -p no:cacheprovider 2>&1 | tail -1)
+  (cd "$W/repo" && PYTHONPATH="$W/repo" timeout 180 /venv/bin/python -B "/verif/$d/demo.py" >/dev/null 2>&1); dm=$?
   props=$p
   [ "$n" = "C07-k" ] && props="C11"
   VERIF_REPO="$W/repo" VERIF_EVIDENCE_DIR="$W/ev" VERIF_STOP_ON_FIRST=1 VERIF_COV=0 ./check $props --tier quick >/dev/null 2>&1; rc=$?
   case "$rc" in 1) V=CAUGHT;; 0) V=MISSED;; 2) V=INCONCLUSIVE;; *) V="?($rc)";; esac
-  echo "$n | tests: $t | ./check $props: $V" | tee -a "$OUT.tmp"
+  note=""
+  if [ "$V" != CAUGHT ]; then
+    if [ "$dm" = 0 ]; then note=" - NEUTRALISED: its own demo passes with the change on this HEAD (a later fix: commit removed the trigger)"
+    elif grep -q "TOLERATED" "$d/meta.json"; then note=" - TOLERATED by design (see meta.json)"; fi
+  fi
+  echo "$n | tests: $t | demo rc with the change: $dm | ./check $props: $V$note" | tee -a "$OUT.tmp"
   rm -rf "$W"
 done
 mv "$OUT.tmp" "$OUT"
